@@ -121,10 +121,53 @@ def run(ctx):
                         ctx.report("editing the dict a key was imported from changed what the key exports", {"before": snap, "after": now, "how": how},
                                    f"alias:{key.key_type}:export-follows-caller-dict")
         interop(ctx, label, key, cls)
+    # ---------------- exports do not depend on which export was asked for first
+    export_orders(ctx, pop, classes)
     # ---------------- malformed JWKs
     malformed(ctx, pop, classes)
     # ---------------- correspondence with the Lean model
     differential(ctx, pop, classes)
+
+
+def export_orders(ctx, pop, classes):
+    """History: a key that arrived as PEM / DER / by generation builds its JWK view lazily.  Whatever is asked for first -
+    the public JWK (what an `epk` or a JWKS endpoint needs), the private one, a PEM, the thumbprint - every later export
+    returns what the same call returns on a fresh object of the same key (whose exports the round-trip suite above has
+    judged against the native key)."""
+    ops = {"jwk-public": lambda k: k.as_dict(private=False), "jwk-private": lambda k: k.as_dict(private=True), "jwk-default": lambda k: k.as_dict(),
+           "dict_value": lambda k: dict(k.dict_value), "pem-public": lambda k: k.as_pem(private=False), "pem-private": lambda k: k.as_pem(private=True),
+           "der-public": lambda k: k.as_der(private=False), "thumbprint": lambda k: k.thumbprint(), "is_private": lambda k: k.is_private,
+           "get-d": lambda k: k.get("d") is not None}
+    seen = set()
+    for label, key in pop:
+        if key.key_type == "oct" or not key.is_private:
+            continue
+        fam = (key.key_type, getattr(key, "curve_name", None))
+        if ctx.tier == "quick" and fam in seen:
+            continue
+        seen.add(fam)
+        cls = classes[key.key_type]
+        pem, der = key.as_pem(private=True), key.as_der(private=True)
+        sources = {"pem": lambda: cls.import_key(pem), "der": lambda: cls.import_key(der), "pem-with-parameters": lambda: cls.import_key(pem, {"use": "sig"})}
+        for sname, fresh in sources.items():
+            alone = {}
+            for b, fb in ops.items():
+                alone[b] = fb(fresh())
+            for a, fa in ops.items():
+                for b, fb in ops.items():
+                    if a == b:
+                        continue
+                    k = fresh()
+                    fa(k)
+                    try:
+                        got = fb(k)
+                    except Exception as e:  # noqa: BLE001
+                        got = "raised " + err_name(e)
+                    ctx.count("export-order", (label, sname, a, b), True, f"{key.key_type}:{a}>{b}")
+                    if got != alone[b]:
+                        ctx.report(f"{b} of a {key.key_type} key (from {sname}) after {a} differs from {b} on a fresh object of the same key",
+                                   {"key": label, "source": sname, "first": a, "then": b, "after": repr(got)[:300], "alone": repr(alone[b])[:300]},
+                                   f"export-order:{key.key_type}:{a}-then-{b}")
 
 
 def interop(ctx, label, key, cls):
